@@ -203,6 +203,12 @@ pub fn render(f: &FactSet, spec: &TextSpec) -> TextFiles {
                 // database prefix, so OMIM:n and ORPHA:n rows for one term are neighbours
                 let key = if matches!(spec.disease_rows.mode, crate::channel::Mode::IdAsc | crate::channel::Mode::IdDesc) { (u64::from(d.id) << 33) | (u64::from(*t) << 1) | (kind as u64 & 1) } else { key };
                 rows.push(Row { key, depth: u64::from(depth.get(t).copied().unwrap_or(0)), text });
+                // a NOT row for the very pair that another row asserts (two sources disagreeing): the positive row still
+                // counts; keyed to sit directly before it in the id-sorted modes
+                if ign(20, key) {
+                    rows.push(Row { key: key.wrapping_sub(1), depth: u64::from(depth.get(t).copied().unwrap_or(0)), text: format!("{}:{}\t{}\tNOT\t{}\tPMID:2\tTAS\t\t\t\tP\tHPO:y[2019-01-01]", prefix, d.id, d.name, hp(*t)) });
+                    *out.injected.entry("NOT-row-contradicting-a-positive-row").or_default() += 1;
+                }
                 // NOT row: a (disease, term) pair that is *not* a fact
                 if ign(13, key) {
                     if let Some(other) = f.terms.iter().map(|x| x.id).find(|x| !d.terms.contains(x)) {
